@@ -161,7 +161,7 @@ pub fn spec(seed: u64, idx: usize) -> CorpusSpec {
             let block = *r.pick(&[32usize, 33, 40, 48, 64]);
             let nfull = 1 + r.below(3);
             let residue = *r.pick(&[0usize, 0, 1, 17, 31]);
-            let kinds: Vec<u8> = (0..channels).map(|_| r.below(12) as u8).collect();
+            let kinds: Vec<u8> = (0..channels).map(|_| r.below(14) as u8).collect();
             let mut w = base(channels, bits, block, nfull, residue, &kinds, r.next_u64());
             w.cfg = CfgSpec::random(&mut r);
             // keep frames small: no tiny Rice cap on loud wide samples
